@@ -134,6 +134,23 @@ def mangle_tie(ctx):
                           f"model {sorted(want_globals)} {sorted(want_fns)}")
 
 
+def template_programs():
+    """impl blocks of the harness host's template `Trio` (capabilities c1, c2, c3 -> one method each, `all` -> three):
+    every subset of the three methods implemented under both ways of demanding all three; the analyzer walks its maps of
+    required and of implemented methods, the diagnostics must not depend on the order. One extra, unknown method too."""
+    import itertools
+    meths = {"m1": "fn m1(self: $S, a: int) -> bool { self.n > a }", "m2": "fn m2(self: $S, b: bool) { self.n = 1; }",
+             "m3": "fn m3(self: $S, c: float) { self.n = 2; }", "zz": "fn zz(self: $S) { }"}
+    out = []
+    for caps in ("c1, c2, c3", "all", "c3, c1", "c2"):
+        for r in range(0, 5):
+            for sub in itertools.combinations(sorted(meths), r):
+                src = ("import { templ Trio } from veriftemplates;\n$S = { n: int };\nimpl Trio with { " + caps + " } for $S {\n"
+                       + "".join("    " + meths[m] + "\n" for m in sub) + "}\nfn main() { println(\"ran\"); }\n")
+                out.append(({"main": src}, ["impl-block"]))
+    return out
+
+
 def run(ctx):
     st = core.prepare(ctx, MODULES)
     ctx.assumptions += ASSUMPTIONS
@@ -150,6 +167,7 @@ def run(ctx):
     quick = ctx.tier == "quick"
     n, procs = (20, 3) if quick else (40, 4)
     judge(ctx, [(m, ["corpus:" + fid]) for m, fid in CORPUS], 40 if quick else 100, procs, "C14 corpus")
+    judge(ctx, template_programs(), 40 if quick else 100, procs, "C14 impl blocks")
     programs = [mg.c14_program(ctx.rng) for _ in range(300 if quick else 1500)]
     # module graphs of C15's fragment that are accepted (several modules, every visiting order matters)
     graphs = list(mg.family_e())
